@@ -22,12 +22,20 @@ LAYOUTS = {
     # snmp_insecure_version_check, B509 snmp_weak_cryptography / snmp_crypto_check): seeded change C02-m9 resolved nosec names through the function names
     "hash_md5": ["h = hashlib.md5(", "    data) or subprocess.Popen(c, shell=True)"],
     "snmp": ["c = pysnmp.hlapi.CommunityData('public',", "    mpModel=0) or pysnmp.hlapi.UsmUserData('u', 'a') or subprocess.Popen(c, shell=True)"],
+    # a whole-file finding (B613 reports the line of the control character, its context is the file placeholder [0, 1]): the comment on the reported line counts
+    # (seeded change C02-m11 consulted it only when the line lies in the context's range)
+    "bidi": ["x = 1", "label = 'a\u202eb'", "y = 2  # \u2066 isolate", "z = 3"],
+    # strings that are parameter defaults: their parent (`arguments`) has no position of its own, the lines searched for comments come from the neighbouring
+    # nodes (seeded change C02-m12 gave such nodes the placeholder range)
+    "def_defaults": ["def serve(host='0.0.0.0',", "          scratch='/tmp/x.sock',", "          port=8080):", "    return host"],
+    "lambda_default": ["handler = lambda bind='0.0.0.0', tmp='/var/tmp/q': bind"],
     "et_parse": ["t = xml.etree.cElementTree.parse(", "    src) or xml.etree.ElementTree.parse(src) or subprocess.Popen(c, shell=True)"],
 }
 # the test IDs each layout triggers (for targeted two-comment enumeration)
 LAYOUT_IDS = {"one_line": ["B101", "B602", "B607"], "four_lines": ["B101", "B602", "B607"], "nested_later_line": ["B602", "B607", "B301"],
               "nested_three": ["B602", "B301"], "password_kw": ["B106", "B104"], "call_stmt": ["B602", "B607"], "str_in_dict": ["B105", "B108"],
-              "et_parse": ["B313", "B314", "B602"], "hash_md5": ["B324", "B602"], "snmp": ["B508", "B509", "B602"]}
+              "et_parse": ["B313", "B314", "B602"], "hash_md5": ["B324", "B602"], "snmp": ["B508", "B509", "B602"],
+              "bidi": ["B613"], "def_defaults": ["B104", "B108"], "lambda_default": ["B104", "B108"]}
 PRELUDE = ["import subprocess", "import pickle"]
 
 TESTS_TEXTS = [
@@ -105,6 +113,9 @@ def build_cases(res, rng, thorough):
         ("except_pass", {4: "# nosec"}), ("except_pass", {5: "# nosec B110"}), ("pickle_two", {2: "# nosec B301"}), ("pickle_two", {3: "# nosec pickle"}),
         ("et_parse", {2: "# nosec xml_bad_cElementTree"}), ("et_parse", {3: "# nosec xml_bad_ElementTree"}), ("et_parse", {2: "# nosec B313", 3: "# nosec xml_bad_ElementTree"}),
         ("et_parse", {3: "# nosec B101, xml_bad_ElementTree"}), ("et_parse", {2: "# nosec xml_bad_celementtree"}),
+        ("bidi", {3: "# nosec"}), ("bidi", {3: "# nosec B613"}), ("bidi", {4: "# nosec: trojansource"}), ("bidi", {3: "# nosec B101"}), ("bidi", {4: "# nosec B101, B613"}), ("bidi", {2: "# nosec"}),
+        ("def_defaults", {2: "# nosec B104"}), ("def_defaults", {3: "# nosec"}), ("def_defaults", {3: "# nosec B104"}), ("def_defaults", {2: "# nosec B108", 3: "# nosec B108"}),
+        ("lambda_default", {2: "# nosec B108, B104"}), ("lambda_default", {2: "# nosec hardcoded_tmp_directory"}),
     ]
     for lay, cm in corpus:
         cases.append((lay, cm, "corpus"))
@@ -195,7 +206,7 @@ def key(f):
     return (f[0], f[3], f[5])
 
 
-def run(res, ctx):
+def _run_props(res, ctx):
     reg = registry_maps()
     rng = C.rng_for(res.seed, "C02")
     thorough = res.tier == "thorough"
@@ -316,3 +327,10 @@ def run(res, ctx):
         res.extra["parser_texts"] = len(texts)
         res.extra["parser_mismatches"] = bad
     res.extra["programs"] = len(progs)
+
+
+def run(res, ctx):
+    import clirel
+    _run_props(res, ctx)
+    # relations between runs of the command-line tool that differ in one kind of option (harness/clirel.py): the relations this property owns
+    clirel.family(res, ctx, C, "C02", 150, 900)
